@@ -91,27 +91,63 @@ func forEachProfile(run *hx.Run, profiles []hx.M, fn func(w *worker, d *hx.DB, i
 	wg.Wait()
 }
 
+// retained watches rows a caller keeps WITHOUT copying: the documentation says
+// row values stay valid during the transaction, so a row delivered earlier must
+// still be intact when later rows are delivered (an implementation that decodes
+// into a reused buffer would change it).
+type retained struct {
+	raw   []sqlittle.Row
+	clone []hx.Row
+	bad   string
+}
+
+func (k *retained) add(r sqlittle.Row, c hx.Row) {
+	// check the previous few rows each time, and keep a bounded window
+	for i := len(k.raw) - 1; i >= 0 && i >= len(k.raw)-3; i-- {
+		if k.bad == "" && !hx.RowEqualStrict(hx.Row(k.raw[i]), k.clone[i]) {
+			k.bad = fmt.Sprintf("a row delivered earlier in the same call changed after later rows were read: was %s, now %s", hx.RowString(k.clone[i]), hx.RowString(k.raw[i]))
+		}
+	}
+	if len(k.raw) > 64 {
+		k.raw, k.clone = k.raw[32:], k.clone[32:]
+	}
+	k.raw = append(k.raw, r)
+	k.clone = append(k.clone, c)
+}
+
 // collectSelect runs DB.Select and returns cloned rows.
 func collectSelect(db *sqlittle.DB, table string, cols []string) (rows []hx.Row, err error, panicMsg string) {
+	var keep retained
 	p, msg := safely(func() {
 		err = db.Select(table, func(r sqlittle.Row) {
-			rows = append(rows, hx.CloneRow(r))
+			c := hx.CloneRow(r)
+			keep.add(r, c)
+			rows = append(rows, c)
 		}, cols...)
 	})
 	if p {
 		panicMsg = msg
 	}
+	if keep.bad != "" && panicMsg == "" {
+		panicMsg = "RETAINED-ROW-CHANGED: " + keep.bad
+	}
 	return
 }
 
 func collectIndexed(db *sqlittle.DB, table, index string, cols []string) (rows []hx.Row, err error, panicMsg string) {
+	var keep retained
 	p, msg := safely(func() {
 		err = db.IndexedSelect(table, index, func(r sqlittle.Row) {
-			rows = append(rows, hx.CloneRow(r))
+			c := hx.CloneRow(r)
+			keep.add(r, c)
+			rows = append(rows, c)
 		}, cols...)
 	})
 	if p {
 		panicMsg = msg
+	}
+	if keep.bad != "" && panicMsg == "" {
+		panicMsg = "RETAINED-ROW-CHANGED: " + keep.bad
 	}
 	return
 }
@@ -211,4 +247,12 @@ func tableKind(t *hx.TableInfo) string {
 		return "rowid-alias"
 	}
 	return "rowid"
+}
+
+// pmKind names the kind of abnormal outcome carried in a collector's panic message.
+func pmKind(pm string) string {
+	if strings.HasPrefix(pm, "RETAINED-ROW-CHANGED") {
+		return "retained-row-changed"
+	}
+	return "panic"
 }
